@@ -455,6 +455,22 @@ fn c19_laws(v: &[Val]) -> Result<bool, String> {
         let s0 = r0.angle.grade_angle().sin();
         if (n0 * s0 - sin_in).abs() > n0 * (2.0 * TOL + 16.0 * EPS) + 16.0 * EPS { return Err(format!("Snell at the critical angle (n = |sin t_in| = {:e}): n sin(t_out) = {:e} but sin(t_in) = {:e}", n0, n0 * s0, sin_in)); }
     }
+    // activations in sequence: a tanh layer hands a signed magnitude to the next activation; the angle still never changes
+    {
+        let ct = a.angle.grade_angle().cos();
+        let t1 = a.activate(Activation::Tanh);
+        if !same_angle(&t1.angle, &a.angle) { return Err("tanh changed the angle".into()); }
+        for (nm, act) in [("relu", Activation::ReLU), ("sigmoid", Activation::Sigmoid), ("tanh", Activation::Tanh), ("identity", Activation::Identity)] {
+            let r2 = t1.activate(act);
+            if !same_angle(&r2.angle, &a.angle) { return Err(format!("{} after a tanh layer changed the angle: {} -> {} (input magnitude {:e})", nm, show_a(&a.angle), show_a(&r2.angle), t1.mag)); }
+            match nm {
+                "sigmoid" => if t1.mag != 0.0 && t1.mag.abs() >= 1e-100 && !(r2.mag.abs() < t1.mag.abs() && r2.mag * t1.mag > 0.0) { return Err(format!("sigmoid of magnitude {:e} gave {:e}, not strictly between 0 and it", t1.mag, r2.mag)); },
+                "tanh" => if r2.mag.abs() > t1.mag.abs() { return Err("|tanh output| exceeds the magnitude".into()); },
+                "relu" => if r2.mag.to_bits() != (if ct > 0.0 { t1.mag } else { 0.0 }).to_bits() { return Err("relu after tanh does not pass the magnitude iff cos t > 0".into()); },
+                _ => if !same_geonum(&r2, &t1) { return Err("identity activation changed its input".into()); },
+            }
+        }
+    }
     // magnification: intensity ∝ 1/m²
     let (m1, m2) = (a.magnify(b), a.magnify(Geonum::new_with_angle(b.mag * s, b.angle)));
     if relerr(m2.mag * s * s, m1.mag) > 16.0 * EPS { return Err("magnification does not scale intensity by 1/m^2".into()); }
